@@ -110,6 +110,7 @@ inductive Err where
   | mustChooseNameplateFirst | alreadyChoseNameplate | alreadyChoseWords
   | assertion | typeError | attributeError | keyError
   | unknownRegex       -- the translator found a regex this model has no semantics for
+  | alreadyInputNameplate   -- `_rlcompleter`: the line no longer carries the committed nameplate
   deriving DecidableEq, Repr
 
 def Err.name : Err → String
@@ -121,6 +122,7 @@ def Err.name : Err → String
   | .assertion => "AssertionError" | .typeError => "TypeError"
   | .attributeError => "AttributeError" | .keyError => "KeyError"
   | .unknownRegex => "unknown-regex"
+  | .alreadyInputNameplate => "AlreadyInputNameplateError"
 
 /-- the two nameplate regexes this model knows -/
 inductive NpRegex where
@@ -409,6 +411,8 @@ ndranges                 -> lo-hi,lo-hi,…
 alloc <n> | set <str> | input | connected | lost | rxalloc <str> <bytes> | gotnp <strs> | gotwl
 h refresh | h npc <str> | h choosenp <str> | h wc <str> | h choosewords <str> | h wwa
                          -> <result> | <cmds emitted by this call> | latch code input alloc
+rl tab <str> | rl finish <str>      (CodeInputter: TAB = completer(text, 0…), Return = finish(text))
+                         -> <matches in order | ok | Error> | <cmds> | committed=<str|none> used=<bool> | latch code input alloc
 ```
 -/
 
@@ -478,42 +482,194 @@ def showExc : Except Err Unit → String
   | .ok _ => "ok"
   | .error e => e.name
 
-def stepLine (s : St) (line : String) : St × String :=
+/-! ## `_rlcompleter.CodeInputter` — the readline front-end of interactive entry
+
+`_commit_and_build_completions(text)` (what TAB runs, through `completer(text, 0)`) and `finish(text)`
+(what Return runs), on top of the Input helper above.  `blockingCallFromThread` is a plain call here;
+the one call that really blocks, `when_wordlist_is_available()` right after the nameplate was
+committed, is resolved by the server's answer to the claim (`got_wordlist`) arriving meanwhile.
+-/
+
+structure Rl where
+  s : St
+  committed : Option Str       -- `_committed_nameplate`
+  used : Bool                  -- `used_completion`
+  deriving DecidableEq, Repr
+
+def rlInit : Rl := { s := init, committed := none, used := false }
+
+/-- `"-" in text` and `text.split("-", 1)` -/
+def parseText (text : Str) : Option (Str × Str) :=
+  if text.contains 45 then some (text.takeWhile (· != 45), (text.dropWhile (· != 45)).drop 1) else none
+
+/-- `if self._committed_nameplate:` — `None` and `""` are both false -/
+def committedNp (r : Rl) : Option Str :=
+  match r.committed with
+  | some (c :: cs) => some (c :: cs)
+  | _ => none
+
+/-- the "they deleted past the commitment point" test of `_commit_and_build_completions`:
+    `not got_nameplate or nameplate != self._committed_nameplate` -/
+def rolledBackTab (r : Rl) (parsed : Option (Str × Str)) : Bool :=
+  match committedNp r with
+  | none => false
+  | some c =>
+    match parsed with
+    | none => true
+    | some (np, _) => np != c
+
+/-- the same test in `finish` (a hyphen is known to be present): `nameplate != self._committed_nameplate` -/
+def rolledBackFinish (r : Rl) (np : Str) : Bool :=
+  match committedNp r with
+  | none => false
+  | some c => np != c
+
+/-- `self.bcft(ih.when_wordlist_is_available)`: returns at once if the wordlist is known, else blocks
+    until the claim response brings it -/
+def rlWaitWordlist (isD : Nat → Bool) (s : St) : R :=
+  match step isD s .hWhenWordlist with
+  | (s1, some e) => (s1, some e)
+  | (s1, none) => if s1.ret == some [[1]] then (s1, none) else step isD s1 .gotWordlist
+
+/-- "time to commit to this nameplate, if they haven't already": `choose_nameplate`, remember it,
+    wait for the wordlist -/
+def rlCommitTab (isD : Nat → Bool) (r : Rl) (np : Str) : Rl × Option Err :=
+  if (committedNp r).isSome then (r, none) else
+  match step isD r.s (.hChooseNp np) with
+  | (s1, some e) => ({ r with s := s1 }, some e)
+  | (s1, none) =>
+    match rlWaitWordlist isD s1 with
+    | (s2, e) => ({ r with s := s2, committed := some np }, e)
+
+/-- completing on nameplates: `refresh_nameplates()`, then `sorted(get_nameplate_completions(text))` -/
+def rlNameplates (isD : Nat → Bool) (r : Rl) (text : Str) : Rl × Except Err (List Str) :=
+  match step isD r.s .hRefresh with
+  | (s1, some e) => ({ r with s := s1 }, .error e)
+  | (s1, none) =>
+    match step isD s1 (.hNpCompl text) with
+    | (s2, some e) => ({ r with s := s2 }, .error e)
+    | (s2, none) =>
+      match s2.ret with
+      | none => ({ r with s := s2 }, .error .typeError)
+      | some l => ({ r with s := s2 }, .ok (sortStrs l))
+
+/-- completing on words: `sorted(nameplate + "-" + c for c in get_word_completions(words))` -/
+def rlWords (isD : Nat → Bool) (r : Rl) (np words : Str) : Rl × Except Err (List Str) :=
+  match step isD r.s (.hWordCompl words) with
+  | (s3, some e) => ({ r with s := s3 }, .error e)
+  | (s3, none) =>
+    match s3.ret with
+    | none => ({ r with s := s3 }, .error .typeError)
+    | some l => ({ r with s := s3 }, .ok (sortStrs (l.map fun w => np ++ 45 :: w)))
+
+/-- `_commit_and_build_completions(text)`; the value is `sorted(completions)` -/
+def rlBuild (isD : Nat → Bool) (r : Rl) (text : Str) : Rl × Except Err (List Str) :=
+  if rolledBackTab r (parseText text) then (r, .error .alreadyInputNameplate) else
+  match parseText text with
+  | none => rlNameplates isD r text
+  | some (np, words) =>
+    match rlCommitTab isD r np with
+    | (r1, some e) => (r1, .error e)
+    | (r1, none) => rlWords isD r1 np words
+
+/-- TAB: `completer(text, 0)`, then `completer(text, 1…)` until `None` — the whole match list -/
+def rlTab (isD : Nat → Bool) (r : Rl) (text : Str) : Rl × Except Err (List Str) :=
+  rlBuild isD { r with used := true } text
+
+/-- `finish`: `choose_nameplate` only if no nameplate was committed by a TAB -/
+def rlCommitFinish (isD : Nat → Bool) (r : Rl) (np : Str) : Rl × Option Err :=
+  if (committedNp r).isSome then (r, none) else
+  match step isD r.s (.hChooseNp np) with
+  | (s1, e) => ({ r with s := s1 }, e)
+
+/-- Return: `finish(text)` -/
+def rlFinish (isD : Nat → Bool) (r : Rl) (text : Str) : Rl × Option Err :=
+  match parseText text with
+  | none => (r, some .keyFormat)                 -- "incomplete wormhole code"
+  | some (np, words) =>
+    if rolledBackFinish r np then (r, some .alreadyInputNameplate) else
+    match rlCommitFinish isD r np with
+    | (r1, some e) => (r1, some e)
+    | (r1, none) =>
+      match step isD r1.s (.hChooseWords words) with
+      | (s2, e) => ({ r1 with s := s2 }, e)
+
+/-- an interactive session: the user's TABs and the final Return, interleaved with anything else that
+    can happen to the objects underneath -/
+inductive RlEv where
+  | tab (text : Str)
+  | finish (text : Str)
+  | env (e : Ev)
+  deriving DecidableEq, Repr
+
+def rlStep (isD : Nat → Bool) (r : Rl) : RlEv → Rl
+  | .tab t => (rlTab isD r t).1
+  | .finish t => (rlFinish isD r t).1
+  | .env e => { r with s := (step isD r.s e).1 }
+
+def rlRun (isD : Nat → Bool) : Rl → List RlEv → Rl
+  | r, [] => r
+  | r, e :: es => rlRun isD (rlStep isD r e) es
+
+def showRl (before : Nat) (res : String) (r : Rl) : String :=
+  let cmds := (r.s.out.drop before).map showCmd
+  let com := match r.committed with | none => "none" | some c => showStr c
+  s!"{res} | {" ".intercalate cmds} | committed={com} used={r.used} | {r.s.latch} {Code.State.name r.s.code} {Input.State.name r.s.inp} {Allocator.State.name r.s.alloc}"
+
+def showListInOrder (l : List Str) : String :=
+  if l.isEmpty then "." else ",".intercalate (l.map showStr)
+
+def stepLine (r : Rl) (line : String) : Rl × String :=
+  let s := r.s
   match tokens line with
-  | ["reset"] => (init, "ok")
+  | ["reset"] => (rlInit, "ok")
+  | ["rl", "tab", h] =>
+    match readStr? h with
+    | some t =>
+      match rlTab isNd r t with
+      | (r', .ok l) => (r', showRl s.out.length (showListInOrder l) r')
+      | (r', .error e) => (r', showRl s.out.length e.name r')
+    | none => (r, "bad-op")
+  | ["rl", "finish", h] =>
+    match readStr? h with
+    | some t =>
+      match rlFinish isNd r t with
+      | (r', none) => (r', showRl s.out.length "ok" r')
+      | (r', some e) => (r', showRl s.out.length e.name r')
+    | none => (r, "bad-op")
   | ["np", h] =>
     match readStr? h with
-    | some x => (s, showExc (validateNameplate isNd x))
-    | none => (s, "bad-op")
+    | some x => (r, showExc (validateNameplate isNd x))
+    | none => (r, "bad-op")
   | ["vc", h] =>
     match readStr? h with
-    | some x => (s, showExc (validateCode isNd x))
-    | none => (s, "bad-op")
+    | some x => (r, showExc (validateCode isNd x))
+    | none => (r, "bad-op")
   | ["cw", n, b] =>
     match n.toNat?, fromHex? b with
     | some n, some rs =>
-      (s, match chooseWords n rs with | some w => showStr w | none => "KeyError")
-    | _, _ => (s, "bad-op")
+      (r, match chooseWords n rs with | some w => showStr w | none => "KeyError")
+    | _, _ => (r, "bad-op")
   | ["word", i, b] =>
     match i.toNat?, b.toNat? with
-    | some i, some b => (s, match wordAt i b with | some w => showStr w | none => "KeyError")
-    | _, _ => (s, "bad-op")
+    | some i, some b => (r, match wordAt i b with | some w => showStr w | none => "KeyError")
+    | _, _ => (r, "bad-op")
   | ["gc", n, h] =>
     match n.toNat?, readStr? h with
-    | some n, some p => (s, showStrs (getCompletions p n))
-    | _, _ => (s, "bad-op")
+    | some n, some p => (r, showStrs (getCompletions p n))
+    | _, _ => (r, "bad-op")
   | ["nd", c] =>
     match c.toNat? with
-    | some c => (s, if isNd c then "1" else "0")
-    | none => (s, "bad-op")
-  | ["ndranges"] => (s, showRanges Consts.unicode_decimal_ranges)
+    | some c => (r, if isNd c then "1" else "0")
+    | none => (r, "bad-op")
+  | ["ndranges"] => (r, showRanges Consts.unicode_decimal_ranges)
   | ts =>
     match readEv? ts with
     | some ev =>
-      let r := step isNd s ev
-      (r.1, showStep s.out.length r (ev == .hWhenWordlist))
-    | none => (s, "bad-op")
+      let q := step isNd s ev
+      ({ r with s := q.1 }, showStep s.out.length q (ev == .hWhenWordlist))
+    | none => (r, "bad-op")
 
-def driver (lines : List String) : List String := runLines stepLine init lines
+def driver (lines : List String) : List String := runLines stepLine rlInit lines
 
 end WV.C19
